@@ -24,7 +24,10 @@ CONSTANTS B,               \* units per block
           PerfectHash,                \* TRUE: checksums never collide (the checksum is the data itself)
           Emit,                       \* TRUE: print <<input, result>> of every finished run as JSON (for replay)
           SparseCheckOnFragBlock,     \* TRUE = pinned tree (defect: all-zero fragment block dropped)
-          Dev                         \* "none" or the name of a deviation
+          Dev,                        \* "none" or the name of a deviation
+          ChainSeq                    \* <<>>, or a sequence of distinct content ids: the inputs are then the long collision chain
+                                      \* (one single-block file per id, all of one stored size and one checksum) followed by nothing or by a
+                                      \* copy of one of them - the candidate search of deduplicate_blocks at a depth the general bounds cannot reach
 
 UserFlags == {"DONT_COMPRESS", "DONT_FRAGMENT", "IGNORE_SPARSE", "DONT_DEDUP"}
 NoFrag == 0 - 1
@@ -243,7 +246,10 @@ Finish(s) ==                  \* sqfs_block_processor_finish
 BlockSeqs == UNION {[1..k -> ContentIds] : k \in 0..MaxBlocks}
 Tails     == {<<>>} \cup {<<[c |-> c, n |-> n]>> : c \in ContentIds, n \in TailSizes}
 FileSpecs == [blocks : BlockSeqs, tail : Tails, flags : FlagSets]
-Inputs    == UNION {[1..k -> FileSpecs] : k \in 1..MaxFiles}
+ChainFile(c) == [blocks |-> <<c>>, tail |-> <<>>, flags |-> {}]
+ChainBase == [i \in 1..Len(ChainSeq) |-> ChainFile(ChainSeq[i])]
+Inputs    == IF ChainSeq = <<>> THEN UNION {[1..k -> FileSpecs] : k \in 1..MaxFiles}
+             ELSE {SubSeq(ChainBase, 1, k) : k \in 2..Len(ChainSeq)} \cup {Append(ChainBase, ChainFile(ChainSeq[j])) : j \in 1..Len(ChainSeq)}
 Oracles   == IF Dev = "PoolUnordered" THEN {<<0, 0, 0, 0, 0, 0>>, <<1, 0, 1, 0, 1, 0>>, <<1, 1, 1, 1, 1, 1>>, <<0, 1, 2, 0, 1, 2>>}
              ELSE {<<>>}
 
